@@ -66,6 +66,13 @@ fn main() {
         "minimize" => check::cmd_minimize(&pos, &opts),
         "selftest-determinism" => check::cmd_selftest(&opts),
         "fidelity" => check::cmd_fidelity(&opts),
+        "lock-model-probe" => {
+            // never returns normally when the dead-lock is real: exit straight away
+            let code = fidelity::lock_model_probe();
+            println!("LOCK-MODEL-PROBE {}", if code == 7 { "deadlock-confirmed" } else { "no-deadlock" });
+            runner::cleanup_scratch_root();
+            std::process::exit(code);
+        }
         x => {
             eprintln!("unknown command {x}");
             2
